@@ -48,6 +48,7 @@ def build_tree(r, root):
     contents = {}
     decoy_vals = {}
     spellings = []
+    lookalikes = []
     for i, f in enumerate(files):
         if i == len(files) - 1:
             contents[f] = "{\n  v = %d;\n}\n" % final_value
@@ -84,6 +85,15 @@ def build_tree(r, root):
             elif error == "missing-noext":
                 # the literal names no file although `<literal>.nix` exists: still a missing target
                 arg = lit[:-4] if lit.endswith(".nix") and not lit[:-4].endswith("/.") and "/" in lit[:-4] else lit + "-absent"
+            if error in ("missing", "missing-noext") and not arg.startswith("/"):
+                # the same relative literal resolved against the directories the process may stand in names an existing
+                # file (look-alike): the missing target next to the importer must still be an OS error
+                true_target = posixpath.normpath(posixpath.join(here, arg))
+                for cw in ("", "cwd-sub", "a"):
+                    cand = posixpath.normpath(posixpath.join(cw, arg))
+                    if cand.startswith("..") or cand == true_target:
+                        continue
+                    lookalikes.append(cand)
         elif style == "paren":
             k = r.choice([1, 1, 2, 3])
             arg = "(" * k + lit + ")" * k
@@ -107,6 +117,10 @@ def build_tree(r, root):
         for nm in ("<nixpkgs>", "<nixpkgs/lib>"):
             cand = posixpath.join(here, nm) if here else nm
             contents[cand] = "{\n  v = 666;\n}\n"
+    for cand in lookalikes:
+        if cand not in contents:
+            contents[cand] = "{\n  v = %d;\n  other = 0;\n}\n" % (70000 + ndecoys)
+            ndecoys += 1
     for rel, txt in contents.items():
         p = os.path.join(root, rel)
         os.makedirs(os.path.dirname(p), exist_ok=True)
